@@ -294,10 +294,10 @@ def cases(tier, rng):
         else:
             item = fem.SolidBody(fem.OgdenRoxburgh(fem.NeoHooke(mu=1.25, bulk=5.0), r=3.0, m=0.75, beta=0.25), f)
             sym_ = False
-        # a first, large and homogeneous increment (stretch 1.3 along x) is committed: every point is far on the loading side, so the
+        # a first, large and homogeneous increment (stretch 1.75 along x) is committed: every point is far on the loading side, so the
         # small lattice state and its stencil stay on ONE branch (unloading for the softening model, reverse plastic flow for plasticity)
         big = np.zeros_like(f[0].values)
-        big[:, 0] = 0.3 * f.region.mesh.points[:, 0]
+        big[:, 0] = 0.75 * f.region.mesh.points[:, 0]
         f[0].values[:] = big
         item.assemble.vector(f)
         item.results.update_statevars()
